@@ -8,7 +8,9 @@ mod alloc;
 mod bodyx;
 mod gen;
 mod httpref;
+mod mpref;
 mod peers;
+mod reqgen;
 mod props;
 mod runner;
 
@@ -58,6 +60,17 @@ static SPECS: &[PropertySpec] = &[
         assumptions: &["debatable spellings ('+n', 'n, n', bad Content-Length next to chunked or on a must-be-empty response) are don't-care", "the decision itself is a pure function of the head; the simulator supplies delivery schedule, the silent peer and the virtual clock"],
     },
     PropertySpec {
+        id: "C07",
+        scenario: props::c07::scenario,
+        level: "exploration",
+        rule: "generated caller programs: method x path (unicode, sub-delims, pre-encoded) x URL query x param/params with arbitrary strings x header set/append over legal alphabets (incl. obs-text, empty, 9 KiB values) x basic/bearer credentials x body kind (none, text, bytes, file, json, streaming json, form, multipart, custom Body issuing write/write_all/flush sequences with zero-length and >8 KiB writes, honest KnownLength or Chunked) x transport write schedule (short writes, EINTR, slow peer); the peer's bytes are parsed by an independent strict HTTP/1.1 request parser; distinct = (method, body kind, counts, auth, fault class); non-trivial = a body or a write fault",
+        quick_runs: 6000,
+        thorough_runs: 300_000,
+        real_components: REAL,
+        stubbed_components: STUB,
+        assumptions: &["callers never set Host/Connection/Content-Length/Transfer-Encoding/Accept-Encoding themselves", "bearer tokens contain no control characters", "part order of multipart bodies is not demanded"],
+    },
+    PropertySpec {
         id: "C13",
         scenario: props::c13::scenario,
         level: "exploration",
@@ -67,6 +80,17 @@ static SPECS: &[PropertySpec] = &[
         real_components: REAL,
         stubbed_components: STUB,
         assumptions: &["shutdown(Both) on a clone wakes a blocked reader with Ok(0) and a blocked writer with EPIPE (Linux)", "time spent inside connect itself is added to the bound (documented: timeout applies after the TCP connection is established)", "plain http only in this family; tunnelled variant covered by C12/C14 worlds"],
+    },
+    PropertySpec {
+        id: "C15",
+        scenario: props::c15::scenario,
+        level: "exploration",
+        rule: "forms with 0..6 text fields and 0..5 files; data over all byte values incl. CR, LF, dashes and look-alike delimiter lines; part sizes 0 .. >64 KiB drawn so that part boundaries cover the residues of the 8 KiB copy buffer; names/filenames over printable characters; valid MIME strings; transfer under short writes / EINTR / slow peer; the de-chunked body is decoded by an independent multipart decoder with the boundary from Content-Type; distinct = (field counts, size residue class, fault class, filename/mime counts); non-trivial = at least one field",
+        quick_runs: 5000,
+        thorough_runs: 200_000,
+        real_components: REAL,
+        stubbed_components: STUB,
+        assumptions: &["part order is not demanded (multiset comparison)", "the boundary is drawn from the run PRNG through the guarded hook so runs replay byte-for-byte"],
     },
     PropertySpec {
         id: "C17",
